@@ -810,13 +810,3 @@ Proof.
 Qed.
 End Example.
 
-Print Assumptions continuity_exact.
-Print Assumptions split_insert_spec.
-Print Assumptions obj_split_nonperiodic.
-Print Assumptions obj_split_ok.
-Print Assumptions split_length.
-Print Assumptions split_tiling.
-Print Assumptions split_then_evaluate.
-Print Assumptions piece_param_intro.
-Print Assumptions example_split.
-Print Assumptions example_eval.
